@@ -266,7 +266,7 @@ fn main_script(args: &[String]) {
     let out = arg(args, "--out").expect("--out");
     let rdr = std::io::BufReader::new(std::fs::File::open(&inp).expect("open in"));
     let mut f = BufWriter::new(std::fs::File::create(&out).expect("create out"));
-    let (mut n, mut events) = (0u64, 0usize);
+    let (mut n, mut events, mut skipped) = (0u64, 0usize, 0u64);
     for (lineno, line) in rdr.lines().enumerate() {
         let line = line.unwrap();
         if line.trim().is_empty() {
@@ -281,6 +281,13 @@ fn main_script(args: &[String]) {
         };
         let given = evs[0].clone();
         let g = |k: &str, d: u64| given.get(k).and_then(|v| v.as_u64()).unwrap_or(d) as u32;
+        // a script that uses weak pointers cannot run on a build without them
+        let needs_weak = g("nw", 0) > 0
+            || ["downgrade", "upgrade", "upgradef", "clonew", "dropw", "wq", "wnew", "setw", "clearw", "savew", "wprobe", "newcyc"].iter().any(|op| line.contains(&format!("\"op\":\"{}\"", op)));
+        if needs_weak && !cfg!(feature = "weak") {
+            skipped += 1;
+            continue;
+        }
         evs[0] = reset_event(lineno as u64, g("ns", 2), g("np", 0), g("nw", 0), given.get("auto").and_then(|v| v.as_bool()).unwrap_or(false));
         let lines = on_fresh_thread(move || script_one::<()>(evs));
         n += 1;
@@ -290,7 +297,7 @@ fn main_script(args: &[String]) {
         }
     }
     f.flush().unwrap();
-    println!("{}", json!({"mode": "script", "scripts": n, "events": events, "build": build_flags()}));
+    println!("{}", json!({"mode": "script", "scripts": n, "skipped": skipped, "events": events, "build": build_flags()}));
 }
 
 fn build_matches(reset: &Value) -> bool {
